@@ -200,6 +200,16 @@ def check(case, ctx: Ctx):
         restarts += 1
         if limit is not None and restarts > limit:
             raise Violation("restarts-exceed-maximum", "%d restarts > %d; %s" % (restarts, limit, desc))
+    # a hook that refuses (restart not possible / not required, hook failed or raised) ends the restarts: the i-th hook
+    # call belongs to the (i+1)-th restart attempt, so no more than i restarts may have happened
+    REFUSES = ("not_possible", "failed", "raise", "not_required", "false")
+    for i in range(len(hook_calls)):
+        outcome = case["hook"][i] if i < len(case["hook"]) else "possible"
+        if outcome in REFUSES:
+            if restarts > i:
+                raise Violation("restart-after-hook-refused",
+                                "hook call %d answered %r but %d restarts happened; %s" % (i + 1, outcome, restarts, desc))
+            break
     final = res.states.get(ref)
     if final not in ("finished", "failed", "component_shutdown"):
         raise Violation("no-final-state-after-refused-restart", "state %s; %s" % (final, desc))
